@@ -499,7 +499,7 @@ func TestC18Resync(t *testing.T) {
 	rec := ev.New("C18", "resync")
 	defer rec.Flush()
 	rapid.Check(t, func(t *rapid.T) {
-		s := genSet(t, genCfg{allowLT: rapid.IntRange(0, 5).Draw(t, "lt-class") == 0, minN: 2, maxN: 8, cnrs: 2,
+		s := genSet(t, genCfg{allowLT: rapid.IntRange(0, 3).Draw(t, "lt-class") == 0, minN: 2, maxN: 8, cnrs: 2,
 			noTombOnParent: ev.IsOpen("C18", fpTombParent), noExpiredParent: ev.IsOpen("C18", fpExpParent)})
 		rec.Excluded(int64(s.excluded))
 		n := len(s.Members)
